@@ -71,11 +71,74 @@ class MiniInterp:
         self.expr_hook = expr_hook
         self.stmt_hook = stmt_hook
 
+    _depth = 0
+
+    def _helper_hook(self, node, local):
+        """after the rule's own hook: a call of a small *pure* function defined at the top level of the module (a helper the code
+        under analysis was split into) is interpreted on its evaluated arguments -- one level, no effects, value not opaque"""
+        if self.expr_hook is not None:
+            hv = self.expr_hook(node, local)
+            if hv is not NotImplemented:
+                return hv
+        outer = getattr(self, "_outer_hook", None)
+        if outer is not None and outer != self._helper_hook:
+            hv = outer(node, local)
+            if hv is not NotImplemented:
+                return hv
+        h = None
+        is_method = False
+        if isinstance(node, ast.Call) and not node.keywords and MiniInterp._depth < 2:
+            if isinstance(node.func, ast.Name) and node.func.id in getattr(self.mod, "functions", {}) and (local is None or node.func.id not in local):
+                h = self.mod.functions[node.func.id]
+            elif isinstance(node.func, ast.Attribute) and isinstance(node.func.value, ast.Name) and node.func.value.id == "self":
+                # a method of the class under analysis: unique by name among the module's classes
+                cands = [c.methods[node.func.attr] for c in getattr(self.mod, "all_classes", []) if node.func.attr in c.methods]
+                if len(cands) == 1:
+                    h, is_method = cands[0], True
+        if h is not None:
+            a = h.node.args
+            hp = h.params()[1:] if is_method else h.params()
+            if a.vararg is None and a.kwarg is None and not a.kwonlyargs and len(hp) >= len(node.args) and \
+                    len(hp) - len(a.defaults) <= len(node.args) and len(list(ast.walk(h.node))) < 400:
+                try:
+                    args = []
+                    for x in node.args:
+                        try:
+                            args.append(self.ce.eval(x, self.mod, local))
+                        except NotConstant:
+                            args.append(Opaque(norm(x)))
+                    env = dict(zip(hp, args))
+                    if is_method:
+                        env[h.params()[0]] = (local or {}).get("self", Opaque("self"))
+                    for p_, d_ in zip(hp[len(hp) - len(a.defaults):], a.defaults):
+                        if p_ not in env:
+                            env[p_] = self.ce.eval(d_, self.mod, None)
+                    MiniInterp._depth += 1
+                    try:
+                        # the rule's symbolic predicates (environment entries named P_* / __*) stay visible in the helper
+                        # ... and so do module-level names the rule has overridden with a table of its own
+                        glob = getattr(self.mod, "tree", None)
+                        gnames = {t.id for st in (glob.body if glob is not None else []) if isinstance(st, ast.Assign)
+                                  for t in st.targets if isinstance(t, ast.Name)}
+                        for k_, v_ in (local or {}).items():
+                            if (k_.startswith(("P_", "__")) or k_ in gnames) and k_ not in env:
+                                env[k_] = v_
+                        sub = MiniInterp(self.ce, self.mod, guard_hook=self.guard_hook, expr_hook=self.expr_hook,
+                                         stmt_hook=None).run(h.node.body, env)
+                    finally:
+                        MiniInterp._depth -= 1
+                    if (sub.returned or not sub.raised) and not sub.effects and not sub.raised and not isinstance(sub.value, Opaque):
+                        return sub.value if sub.returned else None
+                except (NotConstant, AnalysisError):
+                    pass
+        return NotImplemented
+
     def eval_expr(self, node, env):
-        if self.expr_hook is None:
-            return self.ce.eval(node, self.mod, env)
         saved = self.ce.hook
-        self.ce.hook = self.expr_hook
+        # a hook the rule installed on the evaluator itself stays in force (consulted after the interpreter's own)
+        if saved is not None and getattr(saved, "__func__", None) is not MiniInterp._helper_hook:
+            self._outer_hook = saved
+        self.ce.hook = self._helper_hook
         try:
             return self.ce.eval(node, self.mod, env)
         finally:
